@@ -248,6 +248,21 @@ fn run_c04(ctx: &mut Ctx) {
     let tier = ctx.tier;
     let mut v = RunC04 { cases: tier.pick(400, 25_000), ctx };
     for_each_type(&mut v);
+    // every integer type at every power of two of its range, two either side (not left to chance)
+    {
+        let edges = int_edges();
+        macro_rules! sweep {
+            ($($t:ty),*) => {$(
+                for e in &edges {
+                    if let Ok(x) = <$t>::try_from(*e) {
+                        ctx.observe(concat!("int-edges/", stringify!($t)), check_roundtrip::<$t>(stringify!($t), &x));
+                    }
+                }
+                ctx.flush_failures();
+            )*};
+        }
+        sweep!(i8, i16, i32, i64, u8, u16, u32, u64);
+    }
     // NaN on the value path
     for bits in [f64::NAN.to_bits(), 0x7ff0_0000_0000_0001u64, 0xfff8_0000_0000_0000u64] {
         let x = f64::from_bits(bits);
